@@ -339,7 +339,12 @@ func c10Arity(c *Ctx, enc, dec *Fn) {
 	c.Check(okDec, "C10.B3-arity", dec.Name+" › accepts an array of 3..4", dec.SSA.Pos(), "fields are read only for a CBOR array of 3 or 4 elements", "decoder does not restrict the top-level value to an array of 3..4 elements")
 	okOrig := false
 	if origStore != nil {
+		// (the test itself, or a flag computed from it)
+		_, okOrig = c.Guarded(origStore, Bin("==", n, Const("4")), true)
 		for _, f := range c.FactsAt(origStore.Block()) {
+			if okOrig {
+				break
+			}
 			if ph, ok := f.Cond.V.(*ssa.Phi); ok && f.Val && len(ph.Edges) == 2 {
 				for i, e := range ph.Edges {
 					if cv, ok := e.(*ssa.Const); ok && cv.Value != nil && cv.Value.ExactString() == "true" {
@@ -407,7 +412,7 @@ func c10Senders(c *Ctx) {
 	var extraRule []string
 	for _, pth := range []path{
 		{"Sender.Send", Call("message.Message).MarshalCBOR"), "CBOR"},
-		{"Sender.SendJson", Call("encoding/json.Encoder).Encode"), "JSON"},
+		{"Sender.SendJson", Or(Call("encoding/json.Encoder).Encode"), Call("encoding/json.Marshal")), "JSON"},
 	} {
 		f := c.Func(hs, pth.fn)
 		if f == nil {
@@ -452,6 +457,8 @@ func c10Senders(c *Ctx) {
 			m1 := addMsg
 			var m2 *X
 			if pth.what == "CBOR" {
+				m2 = encCall.X.Args[0]
+			} else if nameMatches(encCall.X.Name, "encoding/json.Marshal") {
 				m2 = encCall.X.Args[0]
 			} else {
 				m2 = encCall.X.Args[1]
